@@ -1,6 +1,8 @@
 import LoguruModel.Parse.Finditer
 import LoguruModel.Parse.Trace
 import LoguruModel.Parse.Cont
+import LoguruModel.Parse.GenProto
+import LoguruModel.Parse.With
 /-
 C20 – `logger.parse()` is independent of the chunk size and equals a whole-text regex scan.
 Only the property theorems and their non-vacuity examples live here.  Model: Parse/Model.lean
@@ -287,6 +289,23 @@ theorem eager_hold_back_rule_is_wrong :
       (findIter (contScanner '\n' ' ') reads).1 = (contScanner '\n' ' ' (readable reads).flatten).map (·.val) :=
   ⟨["a\n b".toList, "\n".toList], by decide, by rw [find_iter_eq_scan _ (contScanner_local '\n' ' ')]⟩
 
+/-- likewise the rule "a pending match that the text just read did not extend is complete" (release
+the last match as soon as it ends at or before the old end of the buffer): a whole chunk can fall
+strictly inside a continuation line that is still arriving -/
+theorem unextended_release_rule_is_wrong :
+    ∃ reads : List (List Char),
+      goUnextended (contScanner '\n' ' ') [] reads ≠ (contScanner '\n' ' ' (readable reads).flatten).map (·.val) ∧
+      (findIter (contScanner '\n' ' ') reads).1 = (contScanner '\n' ' ' (readable reads).flatten).map (·.val) :=
+  ⟨["a\n".toList, " ".toList, "b\n".toList], by decide, by rw [find_iter_eq_scan _ (contScanner_local '\n' ' ')]⟩
+
+/-- on the line scanner – whose matches grow character by character – both cheaper rules agree with
+the whole-text scan on the same chunkings: the two earlier concrete scanners could not tell the
+rules apart, only a scanner whose match grows after a further COMPLETE piece can -/
+theorem cheaper_rules_look_right_on_line_records :
+    goEager (lineScanner '\n') [] ["a\n b".toList, "\n".toList] = lines '\n' "a\n b\n".toList ∧
+    goUnextended (lineScanner '\n') [] ["a\n".toList, " ".toList, "b\n".toList] = lines '\n' "a\n b\n".toList := by
+  decide
+
 /-! ### round 5: the tests of the source the model is defined through (regenerated kernels) -/
 
 /-- `_find_iter` ends its loop exactly on an EMPTY read: a short read (`read(k)` returning fewer than
@@ -459,6 +478,48 @@ theorem trace_yields_eq_deliver_scan (s : Src α) (reads : List (List α)) (cast
   rw [parseTrace_yields s cast vv scan limit hf hc hp ho hl, hr, hk,
     findIterActs_eq_findIter, find_iter_eq_scan scan H]
 
+/-- the same from ONLY the instances of (R),(P) that `_find_iter` can meet on the given text `T` –
+the condition the harness decides with the real `re` engine before it judges a (regex, text) pair,
+also in the runs where the iteration is abandoned or a converter raises -/
+theorem trace_yields_eq_deliver_scan_on (s : Src α) (reads : List (List α)) (cast : CastArgE κ ν)
+    (vv : ValView ν) (scan : Scanner α (List (κ × ν))) (T : List α) (H : LocalOn scan T)
+    (hT : (readable reads).flatten = T) (limit : Option Nat)
+    (hr : s.reads = reads.map .ok) (hk : s.kindOk = true)
+    (hf : (s.own || s.fileObj) = true) (hc : cast.valid = true) (hp : s.patternOk = true)
+    (ho : s.openFails = none) (hl : limit ≠ some 0) :
+    yieldsOf (parseTrace s cast vv scan limit)
+      = deliver (applyCastE vv cast) limit ((scan T).map (·.val)) := by
+  rw [parseTrace_yields s cast vv scan limit hf hc hp ho hl, hr, hk,
+    findIterActs_eq_findIter, find_iter_eq_scan_on scan T H reads hT]
+
+/-- str vs bytes: a pattern of the other string type than the file's content (a str pattern on a
+binary file or the reverse) makes the first `regex.finditer(buffer)` raise TypeError – after
+`read(0)` and the first `read(chunk)`, nothing is yielded, and a file the function opened is closed
+before the exception reaches the consumer.  (With the right type nothing of the kind happens: the
+buffer starts as `fileobj.read(0)`, i.e. it always has the type of what the file hands over.) -/
+theorem string_type_mismatch_raises_type_error (s : Src α) (cast : CastArgE κ ν) (vv : ValView ν)
+    (scan : Scanner α (List (κ × ν))) (limit : Option Nat)
+    (hf : s.file = .pathStr ∨ s.file = .pathLike) (hc : cast.valid = true) (hp : s.patternOk = true)
+    (ho : s.openErr = none) (hl : limit ≠ some 0) (hk : s.kindOk = false)
+    (hr : ∀ e rest, s.reads ≠ .error e :: rest) :
+    parseTrace s cast vv scan limit = [.opened, .read, .read, .closed, .raised .typeError] := by
+  have h1 : Gen.opensStr = true := by decide
+  have h2 : Gen.opensPathLike = true := by decide
+  have h3 : Gen.openViaStr = false := by decide
+  have hown : s.own = true := by rcases hf with h | h <;> simp [Src.own, h, h1, h2]
+  have hof : s.openFails = none := by simp [Src.openFails, h3, ho]
+  rw [parseTrace_own s cast vv scan limit hown hc hp hof hl, hk]
+  have : findIterActs false scan s.chunk s.reads = [.read, .read, .fail .typeError] := by
+    unfold findIterActs
+    cases hrd : s.reads with
+    | nil => simp
+    | cons r rest =>
+      cases r with
+      | error e => exact absurd hrd (hr e rest)
+      | ok c => simp
+  rw [this]
+  simp [consume, closeEv_own]
+
 /-- the i-th dict received is the cast of the i-th match of the whole-text scan – whatever ended or
 interrupted the iteration later -/
 theorem each_yield_is_cast_of_its_match (s : Src α) (reads : List (List α)) (cast : CastArgE κ ν)
@@ -518,6 +579,55 @@ theorem converter_error_stops_at_that_record (s : Src α) (reads : List (List α
   intro j hj
   obtain ⟨w, hw⟩ := hb j hj
   exact ⟨w, by simpa using hw⟩
+
+/-- **The event trace follows from CPython's generator protocol.**  `parseAuto` is the body of
+`parse` as an automaton of the shared protocol model `Py/Generators.lean` (`send`/`throw`/`close`,
+unstarted and finished objects, GeneratorExit – validated against real generator objects by C16);
+a consumer drives the generator object with `next` … `next`, `close()`.  The events are exactly
+`parseTrace` – so that nothing runs before the first `next()`, that `close()` reaches the `yield`
+as GeneratorExit, that an exception finishes the object are consequences of the protocol, and only
+the meaning of the two `with` blocks (close the file on every exit) is written down by hand. -/
+theorem event_trace_follows_from_generator_protocol (s : Src α) (cast : CastArgE κ ν) (vv : ValView ν)
+    (scan : Scanner α (List (κ × ν))) (limit : Option Nat) (fuel : Nat)
+    (hf : (findIterActs s.kindOk scan s.chunk s.reads).length < fuel) :
+    drive (Gen.genObj .generator (parseAuto s cast vv scan)) fuel limit (.unstarted .start) []
+      = parseTrace s cast vv scan limit :=
+  drive_eq_parseTrace s cast vv scan limit fuel hf
+
+/-- hence, driven through the generator protocol, a path argument is opened once and closed exactly
+once however the consumer uses the generator -/
+theorem generator_protocol_closes_path_file (s : Src α) (cast : CastArgE κ ν) (vv : ValView ν)
+    (scan : Scanner α (List (κ × ν))) (limit : Option Nat) (fuel : Nat)
+    (hfu : (findIterActs s.kindOk scan s.chunk s.reads).length < fuel)
+    (hf : s.file = .pathStr ∨ s.file = .pathLike) (hc : cast.valid = true) (hp : s.patternOk = true)
+    (ho : s.openErr = none) (hl : limit ≠ some 0) :
+    ∃ mid tail, drive (Gen.genObj .generator (parseAuto s cast vv scan)) fuel limit (.unstarted .start) []
+        = [.opened] ++ mid ++ [.closed] ++ tail ∧
+      (∀ e ∈ mid, e.inner = true) ∧ (tail = [] ∨ ∃ e, tail = [.raised e]) := by
+  rw [drive_eq_parseTrace s cast vv scan limit fuel hfu]
+  exact path_file_closed_on_every_path s cast vv scan limit hf hc hp ho hl
+
+/-- The two `opener` context managers as they are written (`with open(file) as fileobj: yield fileobj`
+/ `yield file`), run through contextlib's generator-based `__enter__` over the protocol model:
+entering opens the file for a path argument only; an error of `open()` comes out with nothing opened. -/
+theorem entering_with_opener_opens_only_a_path {ρ : Type} (own : Bool) (openErr : Option Err) (w : List (TEv ρ)) :
+    cmEnter (openerAuto ρ own openErr) (.unstarted .start) w =
+      match own, openErr with
+      | true, some e => (.raised (excOf e), .done, w)
+      | true, none => (.ok, .suspended .inside, w ++ [.opened])
+      | false, _ => (.ok, .suspended .inside, w) :=
+  opener_enter own openErr w
+
+/-- … and leaving the block in ANY way – normally, or with any exception in flight (the
+GeneratorExit of `close()` included) – through contextlib's `__exit__` does exactly what the trace
+model appends at every exit (`closeEv`): the file the function opened is closed, a caller's file
+object is left alone, and the exception is not swallowed. -/
+theorem leaving_with_opener_is_closeEv {ρ : Type} (own : Bool) (openErr : Option Err) (exc : Option Gen.Exc)
+    (hx : ∀ x, exc = some x → x.isStopIteration = false) (w : List (TEv ρ)) :
+    cmExit (openerAuto ρ own openErr) (.suspended .inside) exc w = (.ok, .done, w ++ closeEv ρ own) := by
+  have hiw : Gen.iterationInsideWith = true := by decide
+  rw [opener_exit own openErr exc hx w]
+  simp [closeEv, hiw]
 
 /-- a cast dict (distinct keys) converts the value of each listed key that is present exactly once
 and leaves every other entry alone – for every value, `None` and `''` included -/
@@ -642,6 +752,14 @@ example : parseTrace { file := .pathStr, kindOk := false, chunk := 3, reads := r
 -- the caller's file object, consumer closing early: only reads and yields
 example : parseTrace { file := .textFile, chunk := 5, reads := rd ["a\nb\nc", "\nd\ne"] } (.fn (fun g => .ok g)) vvStr gdScan (some 1)
     = [read, read, yielded [(0, "a\n".toList)]] := by decide
+-- the same through the generator protocol of Py/Generators.lean: three `next`, then `close()`
+example : drive (Gen.genObj .generator (parseAuto { file := .pathStr, chunk := 5, reads := rd ["a\nb\nc", "\nd\ne"] }
+      (.dict [(0, fun v => .ok ('#' :: v))]) vvStr gdScan)) 20 (some 3) (.unstarted .start) []
+    = [opened, read, read, yielded [(0, "#a\n".toList)], yielded [(0, "#b\n".toList)], read,
+       yielded [(0, "#c\n".toList)], closed] := by decide
+-- the path opener through contextlib's protocol: enter, then GeneratorExit in flight at the exit
+example : (cmExit (openerAuto Nat true none) (.suspended .inside) (some Gen.genExit) [.opened, .read]).2.2
+    = [.opened, .read, .closed] := by decide
 -- open() fails
 example : parseTrace { file := .pathStr, openErr := some .osError, chunk := 3, reads := rd ["a\n"] } (.dict []) vvStr gdScan none
     = [raised .osError] := by decide
